@@ -475,7 +475,13 @@ func c03AltPrefix(c *Ctx, p *Prog) {
 		c.Fail("C03-R6", "alt-prefix:screen-state", p.pos(collect.Pos()), "no field of the screen carries the pending-Alt flag between scans")
 		return
 	}
-	c.Check(len(setters) == 1 && setters[0] == collect.Name(), "C03-R6", "alt-prefix:set-by-collect-loop", p.pos(collect.Pos()), fmt.Sprintf("t.escaped = true in %v", setters))
+	// (in the collect loop itself, or in a helper only the collect loop uses)
+	okSetter := len(setters) == 1
+	if okSetter && setters[0] != collect.Name() {
+		h := p.Fn("tcell:(*tScreen)." + setters[0])
+		okSetter = h != nil && calledOnlyFrom(p, h, map[string]bool{collect.Name(): true}, 0)
+	}
+	c.Check(okSetter, "C03-R6", "alt-prefix:set-by-collect-loop", p.pos(collect.Pos()), fmt.Sprintf("t.escaped = true in %v", setters))
 	// the flag is never dropped silently: every store of false is behind a test of the flag (where
 	// the Alt modifier is applied); an unconditional clear loses Alt+Esc on the expiry path
 	for _, fn := range p.modFns {
